@@ -8,6 +8,7 @@ import Pk.Tsvd
 import Pk.Names
 import Pk.Gram
 import Pk.FitLoop
+import Pk.Numeric
 /-! Line-protocol driver for the Mathlib-free model: one request per line on stdin, one reply per
 line on stdout.  The harness (`/verif/harness`) sends the same cases to the real pykoop and diffs. -/
 open Pk
@@ -294,6 +295,40 @@ def cmdFitLoop : P String := do
     | .user => "user" | .aFailed => "a_failed" | .tol => "tol" | .bFailed => "b_failed" | .maxIter => "max_iter"
   pure (s!"ok {r.u} {r.p} {st} {r.nIter} {r.log.length} " ++ " ".intercalate (r.log.map showRat))
 
+def pFloat : P Float := do
+  let n ← pNat
+  pure (Float.ofBits n.toUInt64)
+
+def showFloat (f : Float) : String := toString f.toBits.toNat
+
+def pFMat : P (List (List Float)) := do
+  let r ← pNat; let c ← pNat
+  pMany r (pMany c pFloat)
+
+/-- `rff <weight_only 0|1> <shape> <W by columns: D x n> <b: 1 x D (or 1 x 0)> <X: rows x n>` (floats as bit patterns) -/
+def cmdRff : P String := do
+  let wo ← pBool; let shape ← pFloat
+  let W ← pFMat; let b ← pFMat; let X ← pFMat
+  let rows := X.map fun x => Numeric.rffRow wo shape W (b.headD []) x
+  pure ("ok " ++ " ".intercalate (rows.map fun r => " ".intercalate (r.map showFloat)))
+
+/-- `rbf <name> <shape> <offset> <centers c x n> <X rows x n>` -/
+def cmdRbf : P String := do
+  let nm ← tok
+  let kind : Numeric.Rbf := match nm with
+    | "exponential" => .exponential | "gaussian" => .gaussian | "multiquadric" => .multiquadric
+    | "inverse_quadratic" => .inverseQuadratic | "inverse_multiquadric" => .inverseMultiquadric
+    | "thin_plate" => .thinPlate | _ => .bump
+  let shape ← pFloat
+  let offTok ← tok
+  let offset ← if offTok == "default" then pure (Numeric.defaultOffset kind) else
+    (match offTok.toNat? with
+     | some n => pure (Float.ofBits n.toUInt64)
+     | none => throw "offset expected")
+  let C ← pFMat; let X ← pFMat
+  let rows := X.map fun x => Numeric.rbfRow kind shape offset C x
+  pure ("ok " ++ " ".intercalate (rows.map fun r => " ".intercalate (r.map showFloat)))
+
 def intCells : Cells Int := ⟨0, Int.toNat, Int.ofNat⟩
 
 def pRaw : P (Raw Int) := do
@@ -349,6 +384,8 @@ def dispatch : P String := do
   | "regargs" => cmdRegArgs
   | "predict" => cmdPredict
   | "traj" => cmdTraj
+  | "rff" => cmdRff
+  | "rbf" => cmdRbf
   | "edmd" => cmdEdmd
   | "fitloop" => cmdFitLoop
   | "tsvd" => cmdTsvd
